@@ -2,9 +2,9 @@
    Pairs.c19_pairs lists the 46 (module, rule, module, rule) pairs.  For the 37 pairs in c19_proved the two rules
    accept the same strings and match the same ends at every offset of every string (verified simulation checker on the
    grammars built from the TRANSLATED texts + C01 on the reachable sub-grammars).  7 pairs (rfc2616 date rules vs RFC
-   7231) are a KNOWN FINDING: they differ in letter case, witnessed in the kernel below.  2 pairs (rfc5987 vs rfc8187
-   charset / ext-value) have equal languages that the structural checker cannot show ("ISO-8859-1" is subsumed by
-   mime-charset): not covered by the theorem, covered by the differential check only. *)
+   7231) are a KNOWN FINDING: they differ in letter case, witnessed in the kernel below.  The remaining 2 pairs (rfc5987 vs
+   rfc8187 charset / ext-value) are language-equal but not structurally ("ISO-8859-1" is subsumed by mime-charset): proved with
+   the subsumption-pruning checker LangEq2 (C19_subsumed_alternative_pairs).  So 39 of 46 pairs are proved equal, 7 refuted. *)
 From Coq Require Import String List NArith Bool.
 From ABNF Require Import Base Engine Spec Schema Registry Loader Bundled TablesAll Pairs L_C19.
 
@@ -15,6 +15,14 @@ Theorem C19 : forall a b, In (a, b) pairs19 -> forall sh, perm_oracle sh ->
       In j (ends (lparse sh (of_list l_all) f' (ERef a) s i)) <-> In j (ends (lparse sh (of_list l_all) f' (ERef b) s i))).
 Proof. exact c19. Qed.
 Print Assumptions C19.
+
+(* the two rfc5987 / rfc8187 pairs (charset, ext-value): equal although not structurally equal — shown with the verified
+   subsumption rule of LangEq2 (every case variant of "ISO-8859-1" is accepted by mime-charset, decided by running the engine) *)
+Theorem C19_subsumed_alternative_pairs : forall a b, In (a, b) pairs19u -> forall sh, perm_oracle sh ->
+  (forall s i j, M (of_list l_all) s (ERef a) i j <-> M (of_list l_all) s (ERef b) i j) /\
+  (forall s, accepts sh (of_list l_all) a s <-> accepts sh (of_list l_all) b s).
+Proof. exact c19u. Qed.
+Print Assumptions C19_subsumed_alternative_pairs.
 
 Theorem C19_every_listed_pair_names_existing_rules :
   forallb (fun p => match pair_rids R_all p with Some _ => true | None => false end) c19_pairs = true.
